@@ -82,6 +82,7 @@ def scenarios():
     S.append({"name": "stdin-to-new-output", "files": [], "stdin": OLD["a.md"], "argv": ["-o", "out.md", "-"], "outputs": ["out.md"]})
     S.append({"name": "stdin-to-existing-output", "files": ["b.md"], "stdin": OLD["a.md"], "argv": ["-o", "b.md", "-"], "outputs": ["b.md"], "output_from_stdin": True})
     S.append({"name": "stdin-to-nested-output", "files": [], "stdin": OLD["a.md"], "argv": ["-o", "x/y/out.md", "-"], "outputs": ["x/y/out.md"]})
+    S.append({"name": "file-to-new-output", "files": ["a.md"], "argv": ["-o", "out.md", "a.md"], "outputs": ["out.md"], "no_inplace": True})
     S.append({"name": "stdout-only", "files": ["a.md", "b.md"], "argv": ["a.md", "b.md"], "no_inplace": True})
     # every switch except --inplace / --auto: the inputs are never touched
     S.append({"name": "nobackup-without-inplace", "files": ["a.md", "b.md"], "argv": ["--nobackup", "a.md", "b.md"], "no_inplace": True})
@@ -102,7 +103,7 @@ class C14(Prop):
     id = "C14"
     once_kinds = ("enumerate", "strace")
     level = "fault_enumeration"
-    rule = ("cases: 24 scenarios x {fault at every file-system audit event, crash (fork + _exit) at every file-system audit event, "
+    rule = ("cases: 25 scenarios x {fault at every file-system audit event, crash (fork + _exit) at every file-system audit event, "
             "crash at every executed line inside flowmark/reformat_api.py + strif + pathlib during the run}; each injection "
             "point is one evaluation and is followed by an end-state check of the whole scratch directory. Non-trivial: the "
             "injection point was reached (the run really died / failed there); distinct by (scenario, kind, k). The point "
